@@ -409,12 +409,12 @@ func (i *interpreter) errorsIs(err, target iface) value {
 				}
 			}
 		}
-		if m := i.prog.LookupMethod(err.t, nil, "Is"); m != nil {
+		if m := i.lookupMethodByName(err.t, "Is"); m != nil {
 			if i.truth(call(i, i.cur, 0, m, []value{err.v, target})) {
 				return true
 			}
 		}
-		m := i.prog.LookupMethod(err.t, nil, "Unwrap")
+		m := i.lookupMethodByName(err.t, "Unwrap")
 		if m == nil {
 			return false
 		}
@@ -560,7 +560,7 @@ func (i *interpreter) fmtValue(itf iface, verb byte, flags string, depth int) []
 	if verb == 'v' || verb == 's' || verb == 'q' {
 		if ptr, ok := itf.v.(*value); ok && ptr == nil {
 			if _, isPtr := itf.t.Underlying().(*types.Pointer); isPtr {
-				if i.prog.LookupMethod(itf.t, nil, "Error") != nil || i.prog.LookupMethod(itf.t, nil, "String") != nil {
+				if i.lookupMethodByName(itf.t, "Error") != nil || i.lookupMethodByName(itf.t, "String") != nil {
 					return []piece{{s: "<nil>"}}
 				}
 			}
@@ -693,6 +693,17 @@ func (i *interpreter) methodNamed(t types.Type, name string) *ssa.Function {
 					return i.prog.MethodValue(sel)
 				}
 			}
+		}
+	}
+	return nil
+}
+
+// lookupMethodByName finds an exported method of t's method set by name (nil if absent).
+func (i *interpreter) lookupMethodByName(t types.Type, name string) *ssa.Function {
+	ms := i.prog.MethodSets.MethodSet(t)
+	for k := 0; k < ms.Len(); k++ {
+		if sel := ms.At(k); sel.Obj().Name() == name {
+			return i.prog.MethodValue(sel)
 		}
 	}
 	return nil
